@@ -97,6 +97,12 @@ EVENTS = {
     'setch9': '\\setcounter{chapter}{9}', 'stepu': '\\stepcounter{zzu}',
     'addsec': '\\addtocounter{section}{2}', 'par': '\\paragraph{T}',
     'enum': '\\begin{enumerate}\\item a\\begin{enumerate}\\item b\\item c\\end{enumerate}\\item d\\end{enumerate}',
+    # un-numbered lists before / beside numbered ones at the same depth
+    'itemenum': '\\begin{itemize}\\item a\\item b\\end{itemize}\\begin{enumerate}\\item c\\item d\\end{enumerate}',
+    'descenum': ('\\begin{enumerate}\\item a\\begin{description}\\item[p] q\\item[r] s\\end{description}'
+                 '\\begin{enumerate}\\item c\\item d\\end{enumerate}\\item e\\end{enumerate}'),
+    # the value 0
+    'set0sec': '\\setcounter{section}{0}', 'set0eq': '\\setcounter{equation}{0}', 'set0u': '\\setcounter{zzu}{0}',
 }
 PREAMBLE = ('\\newtheorem{zzthm}{Theorem}\\newtheorem{zzlem}[zzthm]{Lemma}\\newtheorem{zzprop}{Prop}[section]'
             '\\newcounter{zzu}[section]')
@@ -239,6 +245,15 @@ class LModel(object):
             self.step('section')
         elif ev == 'enum':
             self.out += [('item', '1'), ('item', '1'), ('item', '2'), ('item', '2')]
+        elif ev == 'itemenum':
+            self.out += [('item', '1'), ('item', '2')]
+        elif ev == 'descenum':
+            self.out += [('item', '1'), ('item', '1'), ('item', '2'), ('item', '2')]
+        elif ev in ('set0sec', 'set0eq', 'set0u'):
+            name = {'set0sec': 'section', 'set0eq': 'equation', 'set0u': 'zzu'}[ev]
+            self.c[name] = 0
+            if self.dev & D_SET_RESETS:
+                self.reset_children(name)
         else:
             raise ValueError(ev)
 
@@ -252,7 +267,7 @@ DEEP_EVENTS = ('ch', 'sec', 'sub', 'ssub', 'par', 'eq', 'prop', 'stepu')
 
 def events_for(cls):
     evs = ['sec', 'sub', 'ssub', 'secstar', 'eq', 'eqa', 'fig', 'tab', 'thm', 'lem', 'prop', 'app', 'setsec', 'setsub',
-           'addeq', 'stepsec', 'enum', 'stepu', 'addsec', 'par']
+           'addeq', 'stepsec', 'enum', 'stepu', 'addsec', 'par', 'itemenum', 'descenum', 'set0sec', 'set0eq', 'set0u']
     if cls == 'book':
         evs = ['ch', 'setch9'] + evs
     return evs
@@ -304,6 +319,10 @@ def observe(cls, numdepth, hist):
         if name == 'ArrayRow' and in_eqnarray:
             if r is not None:
                 out.append(('row', str(r.textContent)))
+        elif name == 'item':
+            # only the items of numbered lists carry a number the statement speaks about
+            if getattr(n.parentNode, 'nodeName', None) == 'enumerate':
+                out.append((name, str(r.textContent) if r is not None else None))
         elif name in NUMBERED:
             out.append((name, str(r.textContent) if r is not None else None))
         for c in n.childNodes:
@@ -371,12 +390,14 @@ def expand_chunk(hists):
         for ev in events_for(cls):
             if not enabled(cls, nd, ev):
                 continue
+            if ev == 'set0sec' and 'app' in evs and cls == 'article':
+                continue        # \Alph of 0 is outside the range of the statement
             if len(evs) >= DEEP_FROM and ev not in DEEP_EVENTS:
                 continue        # beyond this depth only the sectioning / reset-relevant events are extended
             h2 = evs + (ev,)
             v, fids, exp, obs, m = judge(cls, nd, h2)
             rep.traces += 1
-            changing = any(e in ('app', 'setsec', 'setsub', 'addeq', 'stepsec', 'ch', 'sec') for e in h2[:-1])
+            changing = any(e in ('app', 'setsec', 'setsub', 'addeq', 'stepsec', 'ch', 'sec', 'set0sec', 'set0eq', 'itemenum') for e in h2[:-1])
             rep.case(key=(cls, nd, h2), nontrivial=changing and ev not in ('app', 'setsec', 'setsub', 'addeq', 'stepsec'),
                      outcome=repr(obs)[:300])
             rep.count('ev_' + ev)
